@@ -143,7 +143,9 @@ func nativeReplay(pkgDir string, items []replayItem, tmp string) (map[string]rep
 	if pkgDir != "." {
 		pattern = "./" + pkgDir
 	}
-	cmd := exec.Command("go", "test", "-overlay", ovFile, "-vet=off", "-count=1", "-run", "^TestVerifReplay$", "-timeout", "900s", "-v", pattern)
+	// -tags verif enables /repo's verification hook (pooled buffers are
+	// poisoned on release), see MANIFEST.hooks.
+	cmd := exec.Command("go", "test", "-tags", "verif", "-overlay", ovFile, "-vet=off", "-count=1", "-run", "^TestVerifReplay$", "-timeout", "900s", "-v", pattern)
 	cmd.Dir = repoDir
 	cmd.Env = append(os.Environ(), "GOFLAGS=-mod=mod", "GOPROXY=off", "GOSUMDB=off", "GOTOOLCHAIN=local", "VERIF_REPLAY_LIST="+listFile)
 	var outb bytes.Buffer
@@ -195,6 +197,7 @@ func cmdCheck(args []string) int {
 	only := fs.String("only", "", "run only this harness")
 	keep := fs.Bool("keep", false, "keep scratch dir")
 	jobs := fs.Int("j", 12, "parallel harness runs")
+	noEvidence := fs.Bool("noevidence", false, "do not (re)write the evidence file (used when checking scratch trees)")
 	var prop string
 	if len(args) > 0 && !strings.HasPrefix(args[0], "-") {
 		prop = args[0]
@@ -449,7 +452,9 @@ func cmdCheck(args []string) int {
 	sort.Strings(knownLines)
 
 	wall := time.Since(start).Seconds()
-	writeEvidence(prop, *tier, sel, primary, inconcl, len(violLines), len(knownLines), witnessOK, confirmed, wall, replaySec)
+	if !*noEvidence {
+		writeEvidence(prop, *tier, sel, primary, inconcl, len(violLines), len(knownLines), witnessOK, confirmed, wall, replaySec)
+	}
 
 	for _, l := range knownLines {
 		fmt.Println(l)
